@@ -98,6 +98,23 @@ func (p *Provider) Get(id int) (Key, bool) {
 	return key, true
 }
 
+// Lookup returns the valid Key that the key ID carried in a cookie refers to and
+// true, or false if there is none. A cookie holds the low-order 16 bits of the
+// ID of its key; among the few keys that are valid at any one time these are
+// unambiguous, also after more than 2^16 keys have been generated.
+func (p *Provider) Lookup(cookieKeyID uint16) (Key, bool) {
+	p.mu.Lock()
+	defer p.mu.Unlock()
+
+	tNow := time.Now()
+	for id, key := range p.keys {
+		if uint16(id) == cookieKeyID && key.IsValidAt(tNow) {
+			return key, true
+		}
+	}
+	return Key{}, false
+}
+
 // Current returns the newest Key or creates a new one if no valid key exists.
 func (p *Provider) Current() Key {
 	p.mu.Lock()
